@@ -211,6 +211,42 @@ impl<'tcx> Cx<'tcx> {
             if let mir::ConstValue::ZeroSized = val {
                 return J::obj(vec![("ty", J::s(ty_str(ty))), ("zst", J::Bool(true))]);
             }
+            // reference to a promoted integer / field-less enum value
+            if let (mir::ConstValue::Scalar(mir::interpret::Scalar::Ptr(ptr, _)), ty::Ref(_, inner, _)) = (val, ty.kind()) {
+                let is_int = matches!(inner.kind(), ty::Int(_) | ty::Uint(_) | ty::Bool);
+                let enum_adt = match inner.kind() {
+                    ty::Adt(adt, _) if adt.is_enum() && adt.variants().iter().all(|v| v.fields.is_empty()) => Some(*adt),
+                    _ => None,
+                };
+                if is_int || enum_adt.is_some() {
+                    if let Ok(l) = tcx.layout_of(TypingEnv::fully_monomorphized().as_query_input(*inner)) {
+                        let n = l.size.bytes() as usize;
+                        let (prov, off) = ptr.prov_and_relative_offset();
+                        if let rustc_middle::mir::interpret::GlobalAlloc::Memory(alloc) = tcx.global_alloc(prov.alloc_id()) {
+                            let start = off.bytes() as usize;
+                            if n <= 16 {
+                                let raw = alloc.inner().inspect_with_uninit_and_ptr_outside_interpreter(start..start + n);
+                                let mut v: u128 = 0;
+                                for (i, b) in raw.iter().enumerate() {
+                                    v |= (*b as u128) << (8 * i);
+                                }
+                                let mut o: Vec<(&str, J)> = vec![("ty", J::s(ty_str(*inner))), ("bits", J::s(format!("{}", v)))];
+                                if let Some(adt) = enum_adt {
+                                    for (vidx, d) in adt.discriminants(tcx) {
+                                        if d.val == v || (n == 0) {
+                                            o.push(("variant", J::Int(vidx.as_usize() as i128)));
+                                            o.push(("variant_name", J::s(adt.variant(vidx).name.to_string())));
+                                            o.push(("adt", J::s(def_str(tcx, adt.did()))));
+                                            break;
+                                        }
+                                    }
+                                }
+                                return J::obj(vec![("ty", J::s(ty_str(ty))), ("ref_const", J::obj(o))]);
+                            }
+                        }
+                    }
+                }
+            }
         }
         J::obj(vec![("ty", J::s(ty_str(ty))), ("opaque", J::s(format!("{}", c)))])
     }
